@@ -334,8 +334,6 @@ func (t *Terminal) clearLineToRight() {
 	t.queue(op)
 }
 
-const maxLineLength = 4096
-
 func (t *Terminal) setLine(newLine []rune, newPos int) {
 	if t.echo {
 		t.moveCursorToPos(0)
@@ -630,9 +628,6 @@ func (t *Terminal) handleKey(key rune) (line []string, ok bool) {
 			}
 		}
 		if !isPrintable(key) {
-			return
-		}
-		if len(t.line) == maxLineLength {
 			return
 		}
 		t.addKeyToLine(key)
